@@ -380,7 +380,30 @@ def r17_8(prog, rep):
     absorb(rep, sub, {"R08.6": "R17.8"})
 
 
+def r17_9(prog, rep):
+    """origin(): its body, interpreted abstractly on the catalogue, yields the class itself for concrete classes, the class
+    of a subscripted generic, and the documented concrete builtin for the abstract collection types."""
+    pe_model = C.PredEval(prog)
+    pe_code = C.PredEval(prog)
+    pe_code.interpret_origin = True
+    f = prog.function(f"{C.INSP}.origin")
+    bad = []
+    decided = 0
+    for a in C.catalogue():
+        if a.flags:
+            continue
+        want = pe_model.call(("call", ("ref", f.qualname), (("param", "x"),), ()), {"x": a}, 0)
+        got = pe_code.call_function(f, [a], 0)
+        if not isinstance(got, C.TypeArg) or not isinstance(want, C.TypeArg):
+            continue
+        decided += 1
+        if (got.cls, got.subscripted) != (want.cls, want.subscripted):
+            bad.append(f"{a.label()}: origin() computes {got.label()}, the documented mapping gives {want.label()}")
+    rep.check(not bad and decided >= 20, "R17.9", f.qualname, f.loc, f"interpreting origin() on {decided} catalogue forms reproduces the documented abstract-to-builtin mapping", f"origin() no longer computes the documented origin: {bad[:3]}" if bad else f"origin() could be interpreted on only {decided} catalogue forms", detail="catalogue")
+
+
 def run(prog: Program, rep: Report, tier: str):
+    rep.rule("R17.9", "origin() interpreted on the catalogue reproduces the documented mapping", floor=1)
     rep.rule("R17.8", "special-form predicates are computed from the facts their contracts name", floor=15)
     rep.rule("R17.1", "GENERIC_TYPE_MAP values are concrete instantiable builtins of the key's kind", floor=18)
     rep.rule("R17.2", "typing / collections.abc spellings agree", floor=16)
@@ -396,6 +419,7 @@ def run(prog: Program, rep: Report, tier: str):
     r17_5(prog, rep)
     r17_6(prog, rep)
     r17_8(prog, rep)
+    r17_9(prog, rep)
     # stability across calls / independence of spelling: memoised accessors must not expose the representation of an
     # annotation that compares equal to a differently spelled one (shared with R12.3, restricted to py/inspection.py)
     from ..report import Report as _R, load_known
